@@ -1,6 +1,6 @@
 """C10 -- a nested scheduler behaves as one job; nesting is transparent."""
 
-from . import common, nested, predicates, runrules
+from . import common, nested, predicates, runrules, shutrules, buildrules
 
 
 def check(ctx, rep):
@@ -22,5 +22,10 @@ def check(ctx, rep):
     runrules.deadline(ctx, rep, "R10.2d", "R10.2d")
     nested.critical_mapping(ctx, rep, "R10.3")
     runrules.detection_exact(ctx, rep, "R10.4")
+    shutrules.cancellation_edges(ctx, rep, "R10.5")
+    buildrules.construction(ctx, rep, "R10.6a", "R10.6b", "R10.6c", "R10.6", "R10.6e")
+    common.job_truthiness(ctx, rep, "R10.7", [ctx.prog.supplier(ctx.roles.jobbase, 'requires'),
+                                               ctx.roles.RUN, ctx.roles.BROADCAST] +
+                          (list(ctx.roles.sequence.methods.values()) if ctx.roles.sequence else []))
     predicates.identity_flow(ctx, rep, "R10.3i")
     predicates.lifecycle_tables(ctx, rep, "R10.3t")
